@@ -66,3 +66,17 @@ func TestReplayRequirementDataLengthWraps(t *testing.T) {
 		t.Errorf("data length 0xffffffff: accepted")
 	}
 }
+
+func TestReplayRequirementPlatformOperand(t *testing.T) {
+	defer func() {
+		if r := recover(); r != nil {
+			t.Errorf("Format panicked: %v", r)
+		}
+	}()
+	// expression: opPlatform (20) with its one integer operand and nothing behind it
+	raw := []byte{0, 0, 0, 1, 0, 0, 0, 20, 0, 0, 0, 2}
+	s, err := (&Requirement{Raw: raw}).Format()
+	if err != nil || s != "platform = 2" {
+		t.Errorf("platform = 2: formatted as %q, %v", s, err)
+	}
+}
